@@ -212,6 +212,8 @@ def _corpus() -> list[str]:
         # sources that fail to tokenize: the error's whole span (start and stop) must lie inside the source
         "{% comment %}aaaa{% comment %}bbbb", "{% comment %}a{% comment %}b{% endcomment %}", "ab{% raw %}cd", "{{ a | f: 'x }}", "x{% if a == %}y",
         "{% liquid\n  comment\n  a\n%}", "{{ \"a${ b \" }}",
+        # block comments written as line statements: first statement of a liquid tag, after another statement, in a second liquid tag
+        "{% liquid\ncomment\na\nendcomment\necho x\n%}{{ y }}", "a{% liquid\necho a\ncomment\nb\nendcomment\n%}{% liquid\ncomment\nc\nendcomment\necho d\n%}",
     ]
     return out + extra
 
@@ -276,18 +278,18 @@ def _nested_ok(tok, lo: int, hi: int) -> bool:
     return True
 
 
-LAYOUTS = CORPUS[-18:]
+LAYOUTS = CORPUS[-20:]
 
 
 @cond(
-    pre=["0 <= i < 18"],
+    pre=["0 <= i < 20"],
     timeout=120,
     covers="tokens after {# #}, {% # %}, block comments, raw and liquid tags start where the previous token stopped (real lexer, concrete layouts)",
-    bounds="18 layouts: comments of every kind before every construct, ranges and paths nested in template strings, liquid tags, 7 sources that fail to tokenize (error span inside the source) (i enumerated by the solver)",
-    grid=lambda: [(i,) for i in range(18)],
+    bounds="20 layouts: comments of every kind before every construct, ranges and paths nested in template strings, liquid tags (incl. block comments as line statements), 7 sources that fail to tokenize (error span inside the source) (i enumerated by the solver)",
+    grid=lambda: [(i,) for i in range(20)],
 )
 def d_comment_layouts(i: int) -> bool:
-    return _spans_ok(LAYOUTS[concrete_int(i, 0, 17)])
+    return _spans_ok(LAYOUTS[concrete_int(i, 0, 19)])
 
 
 @cond(
